@@ -369,6 +369,14 @@ def Table.addCie (t : Table) (c : WCie) : Table × Nat :=
   | some i => (t, i)
   | none => ({ t with cies := t.cies ++ [c] }, t.cies.length)
 
+/-- a sequence of `add_cie` calls: the table afterwards and the id each call returned -/
+def Table.addCies (t : Table) : List WCie → Table × List Nat
+  | [] => (t, [])
+  | c :: cs =>
+    let r := t.addCie c
+    let rs := r.1.addCies cs
+    (rs.1, r.2 :: rs.2)
+
 /-- `FrameTable::add_fde` -/
 def Table.addFde (t : Table) (id : Nat) (f : WFde) : Table := { t with fdes := t.fdes ++ [(id, f)] }
 
